@@ -23,6 +23,7 @@ from liquid2.builtin import parse_string_or_identifier
 from liquid2.builtin import parse_string_or_path
 from liquid2.exceptions import LiquidSyntaxError
 from liquid2.exceptions import TemplateNotFoundError
+from liquid2.unescape import quote_identifier
 
 if TYPE_CHECKING:
     from liquid2 import RenderContext
@@ -59,7 +60,7 @@ class IncludeNode(Node):
         assert isinstance(self.token, TagToken)
         var = f" with {self.var}" if self.var else ""
         if self.alias:
-            var += f" as {self.alias}"
+            var += f" as {quote_identifier(self.alias)}"
         if self.args:
             var += ","
         args = " " + ", ".join(str(arg) for arg in self.args) if self.args else ""
